@@ -26,6 +26,9 @@ Counter p_groups("probe.declaration_with_named_groups");
 Counter p_long_head("probe.head_longer_than_pad_column");
 Counter p_wrapped_synopsis("probe.synopsis_wraps");
 Counter p_structural("probe.structural_clauses_checked");
+Counter f_state("fault.stream.format_state_left_over");
+Counter p_repeat("probe.usage_called_again_on_same_parser");
+Counter p_late("probe.usage_after_late_declaration");
 
 // ---------------------------------------------------------------- simulated stream device
 class SimStreambuf : public std::streambuf
@@ -176,7 +179,7 @@ const std::vector<OpSchema>& us_schema()
         { "group", { "idx" } },
         { "declare", { "kind", "group", "short", "flags" } },
         { "positionals", { "n" } },
-        { "stream", { "kind", "seekable", "offset", "prior", "bufsize", "chunk" } },
+        { "stream", { "kind", "seekable", "offset", "prior", "bufsize", "chunk" } }, // chunk also carries the stream-state bits (chunk / 64)
     };
     return s;
 }
@@ -354,7 +357,7 @@ struct Exec
                 int flags = static_cast<int>(op.a[3]);
                 o.has_default = flags & 1;
                 o.reversible = (flags & 2) && o.kind == 2;
-                o.tdef = (flags >> 2) & 1;
+                o.tdef = (flags >> 2) & 3; // 0..3: counting toggles have defaults above 1
                 no::group& g = o.group == 0 ? p->group() : p->group(d.groups[o.group].name);
                 auto common = [&](auto& x) {
                     if (!o.letter.empty())
@@ -388,7 +391,12 @@ struct Exec
                     if (o.reversible)
                         x.allow_reverse();
                     if (o.has_default)
-                        x.default_value(o.tdef != 0);
+                    {
+                        if (o.tdef <= 1 && (flags & 16))
+                            x.default_value(o.tdef != 0); // the bool overload
+                        else
+                            x.default_value(o.tdef);      // the int overload
+                    }
                 }
                 if (o.metavar.empty())
                     o.metavar = "ARG";
@@ -635,6 +643,14 @@ struct Exec
             p->usage(os);
             ref = os.str();
         }
+        {
+            // a second call on the same parser (nothing may be left over from the first)
+            std::ostringstream os;
+            p->usage(os);
+            p_repeat++;
+            if (os.str() != ref)
+                fail("C15/stream-dependent", "stream=fresh-ostringstream second-call", -1, "the second usage() call on the same parser wrote a different text");
+        }
         int nstreams = 0;
         for (size_t i = 0; i < plan.ops.size() && !stop; i++)
         {
@@ -650,6 +666,23 @@ struct Exec
             static const size_t BUFS[] = { 0, 1, 2, 7, 16, 64, 4096 };
             size_t bufsize = BUFS[op.a[4] % 7];
             unsigned chunk = 1 + static_cast<unsigned>(op.a[5] % 64);
+            // formatting state some earlier user of the stream left behind
+            int state = static_cast<int>((op.a[5] / 64) % 16) & ~1;
+            auto apply_state = [&](std::ostream& os) {
+                if (!state)
+                    return;
+                f_state++;
+                // (a pending width() is not among them: it pads the first insertion of ANY writer and says
+                //  nothing about usage(); fill, adjustment and numeric flags matter only to code that sets a
+                //  width on the target stream itself)
+                if (state & 2)
+                    os.fill('*');
+                if (state & 4)
+                    os.setf(std::ios_base::left, std::ios_base::adjustfield);
+                if (state & 8)
+                    os.setf(std::ios_base::hex | std::ios_base::uppercase | std::ios_base::showbase | std::ios_base::boolalpha,
+                            std::ios_base::basefield | std::ios_base::uppercase | std::ios_base::showbase | std::ios_base::boolalpha);
+            };
             h.add(static_cast<uint64_t>(kind));
             h.add(seekable * 2 + (offset > 0) + 4 * (prior > 0) + 8 * (bufsize == 0) + 16 * (bufsize > 0 && bufsize < 16));
             std::string pr = prior_text(prior, nl);
@@ -660,8 +693,11 @@ struct Exec
             case SK_FRESH_OSS:
             {
                 std::ostringstream os;
+                apply_state(os);
                 p->usage(os);
                 got = os.str();
+                if (state)
+                    sig += " format-state";
                 break;
             }
             case SK_PREFILLED_OSS:
@@ -669,6 +705,9 @@ struct Exec
                 std::ostringstream os;
                 os << pr;
                 f_offset++;
+                apply_state(os);
+                if (state)
+                    sig += " format-state";
                 p->usage(os);
                 std::string all = os.str();
                 if (all.compare(0, pr.size(), pr) != 0)
@@ -696,24 +735,32 @@ struct Exec
                     f_cout++;
                     std::streambuf* old = std::cout.rdbuf(&sb);
                     std::cout.clear();
+                    std::ios saved(nullptr);
+                    saved.copyfmt(std::cout);
+                    apply_state(std::cout);
                     try
                     {
                         p->usage(); // default argument: std::cout
                     }
                     catch (...)
                     {
+                        std::cout.copyfmt(saved);
                         std::cout.rdbuf(old);
                         throw;
                     }
                     std::cout.flush();
+                    std::cout.copyfmt(saved);
                     std::cout.rdbuf(old);
                     sig += " nonseekable";
                 }
                 else
                 {
                     std::ostream os(&sb);
+                    apply_state(os);
                     p->usage(os);
                     os.flush();
+                    if (state)
+                        sig += " format-state";
                     sig += seekable ? (offset || prior ? " seekable,offset" : " seekable") : " nonseekable";
                 }
                 f_chunk += sb.chunks;
@@ -758,6 +805,32 @@ struct Exec
         }
         if (!stop)
             structural(ref, d, -1);
+        if (!stop)
+        {
+            // declarations made after usage() was already called must show up in the next call
+            DOpt t;
+            t.kind = 2;
+            t.group = 0;
+            t.name = "late-toggle";
+            t.desc = "declared after the first usage call";
+            p->toggle(t.name, t.desc);
+            d.opts.push_back(t);
+            DOpt o;
+            o.kind = 0;
+            o.group = d.group_order.empty() ? 0 : d.group_order.back();
+            o.name = "late-option";
+            o.desc = "also late";
+            o.metavar = "ARG";
+            (o.group == 0 ? p->group() : p->group(d.groups[o.group].name)).option(o.name, o.desc);
+            d.opts.push_back(o);
+            std::ostringstream os;
+            p->usage(os);
+            p_late++;
+            size_t before = out.violated;
+            structural(os.str(), d, -2);
+            if (out.violated && !before)
+                out.v.sig += " after-late-declaration";
+        }
         delete p;
         h.add(out.violated);
         h.adds(out.violated ? out.v.cls : std::string());
@@ -846,7 +919,7 @@ public:
             op.a[0] = static_cast<int64_t>(rng.below(3));
             op.a[1] = ngroups ? static_cast<int64_t>(rng.below(static_cast<uint64_t>(ngroups) + 1)) : 0;
             op.a[2] = rng.chance(1, 2) ? static_cast<int64_t>(1 + rng.below(26)) : 0;
-            op.a[3] = static_cast<int64_t>(rng.below(8));
+            op.a[3] = static_cast<int64_t>(rng.below(32));
             std::string name = "o" + std::to_string(i);
             int extra = rng.chance(1, 5) ? rng.range(10, 28) : rng.range(0, 8);
             for (int k = 0; k < extra; k++)
@@ -878,7 +951,7 @@ public:
             op.a[2] = rng.chance(1, 2) ? 0 : static_cast<int64_t>(rng.below(500));
             op.a[3] = rng.chance(1, 3) ? 0 : static_cast<int64_t>(rng.below(402));
             op.a[4] = static_cast<int64_t>(rng.below(7));
-            op.a[5] = static_cast<int64_t>(rng.below(64));
+            op.a[5] = static_cast<int64_t>(rng.below(64)) + 64 * (rng.chance(1, 3) ? static_cast<int64_t>(rng.below(16)) : 0);
             p.ops.push_back(op);
         }
         return p;
